@@ -13,6 +13,7 @@ import BumpVerif.Gen.FnRawVec
 import BumpVerif.Gen.FnRewind
 import BumpVerif.Gen.FnVec
 import BumpVerif.Gen.FnVecDrain
+import BumpVerif.Gen.FnVecIntoIter
 import BumpVerif.Model.Vec
 /-!
 Model-level witness search, run by `./check` when one of the equivalence theorems of `Props/GenFn*.lean` no longer
@@ -201,6 +202,29 @@ def main : IO Unit := do
         showD (match Gen.Fn.drain_drop c d.tailStart d.tailLen (d.lo, d.hi) (v', w0) with
           | (s, .ok _) => (s.1, s.2, false) | (s, .panic) => (s.1, s.2, true) | (s, .bad why) => (s.1, s.2.flag why, false) | (s, _) => (s.1, s.2.flag "?", false)),
         showD (d.drop c v' w0)))) out
+  -- IntoIter: into_iter, then k calls of next, then the destructor, against intoIterOp (sized elements, model unflagged)
+  let iiGen := fun (c : V.Cfg) (v : V.VS) (k : Nat) =>
+    match Gen.Fn.vec_into_iter c (v, w0) with
+    | (s0, .ok (lo0, hi0)) =>
+      let rec go (fuel : Nat) (lo hi : Nat) (s : RsM.VW) (acc : List V.Elem) : Option (Nat × Nat × RsM.VW × List V.Elem) :=
+        match fuel with
+        | 0 => some (lo, hi, s, acc)
+        | f + 1 => match Gen.Fn.intoiter_next c lo hi s with
+          | (s1, .ok (some e, lo1, hi1)) => go f lo1 hi1 (RsM.moved e s1) (acc ++ [e])
+          | (s1, .ok (none, lo1, hi1)) => some (lo1, hi1, s1, acc)
+          | _ => none
+      match go k lo0 hi0 s0 [] with
+      | some (lo, hi, s, acc) =>
+        (match Gen.Fn.intoiter_drop c lo hi s with
+          | (s2, .ok _) => s!"evs={repr s2.2.evs} drops={s2.2.dropCalls} res=some {repr acc}"
+          | (s2, .panic) => s!"evs={repr s2.2.evs} drops={s2.2.dropCalls} res=none"
+          | _ => "bad")
+      | none => "bad"
+    | _ => "bad"
+  out := add (firstDiff "IntoIter" (((vc.filter fun (c, _) => c.esz != 0).flatMap fun (c, v) => [0, 1, 2, 5].map fun k => (c, v, k)).filterMap fun (c, v, k) =>
+    let m := V.intoIterOp c v k 0 false w0
+    if m.1.bad.isEmpty then some (vtag c v ++ s!" next-calls={k}", iiGen c v k,
+      s!"evs={repr m.1.evs} drops={m.1.dropCalls} res={match m.2 with | some xs => "some " ++ toString (repr xs) | none => "none"}") else none)) out
   out := add (firstDiff "Vec::reserve" (vci.map fun (c, v, i) =>
     (vtag c v ++ s!" additional={i}", showM (RsM.toModel (Gen.Fn.vec_reserve c i (v, w0))),
       showM (match V.rawReserve c v v.len i with | some v' => (v', w0, some ()) | none => (v, w0, none))))) out
